@@ -58,6 +58,8 @@ TEMPLATES = [
     # one numeric status code under different (equally legal) status lines; one exception
     # hierarchy with multiple inheritance resolved against the shared handler table
     ('/s/{k}', 'status'), ('/em/{k}', 'errmix'),
+    # responses without any header of their own, some of them carrying a cookie
+    ('/bare/{k}', 'bare'),
 ]
 
 UUIDS = ['11111111-1111-1111-1111-111111111111', '22222222-2222-2222-2222-222222222222',
@@ -99,7 +101,7 @@ def gen_plan(ch, deep=False):
     if scenario == 7:
         # three requests on one route whose answers differ only in something the framework could
         # be tempted to memoise per process / per app (status line by code, handler by class)
-        kind = ['status', 'errmix'][ch.draw(2, 'memo_kind')]
+        kind = ['status', 'errmix', 'bare'][ch.draw(3, 'memo_kind')]
         ki = [i for i, t in enumerate(TEMPLATES) if t[1] == kind][0]
         if ki not in routes:
             routes.append(ki)
@@ -376,6 +378,11 @@ def build_app(plan, asgi, record, pause=None):
             if v == 0:
                 raise AppError('tag=%s' % (obs['tag'],))
             raise ThingMissing(description='tag=%s q=%s' % (obs['tag'], obs['q']))
+        if kind == 'bare':
+            resp.status = 204
+            if sum(ord(c) for c in params.get('k', '')) % 2 == 0:
+                resp.set_cookie('session', str(obs['tag']), path='/')
+            return
         if kind == 'status':
             v = sum(ord(c) for c in params.get('k', '')) % 3
             resp.status = ['422 Validation Failed', 422, http.HTTPStatus(422)][v]
